@@ -6,7 +6,7 @@ Monitor shape: post-conditions evaluated on the real module-level functions over
 import json
 import math
 
-from vlib.common import fp
+from vlib.common import fp, exc_site
 
 LEVEL = "exploration"
 
@@ -51,15 +51,23 @@ def check_partition(du, acc, size, cap, n, extra, zero_rich, rng):
     if any(len(b) != block_size for b in blocks):
         acc.violation(sigbase + ":block-length", f"block lengths {sorted(set(map(len, blocks)))} != {block_size}", case)
     got = []
-    for b in blocks:
-        got.extend(du.parse_identifiers_from_block_given_identifier_size(b, size))
+    try:
+        for b in blocks:
+            got.extend(du.parse_identifiers_from_block_given_identifier_size(b, size))
+    except Exception as e:
+        acc.violation(sigbase + ":parse-raised:" + exc_site(e), f"parse raised {type(e).__name__}: {e}", case)
+        return
     acc.count("parse.by_size")
     if got != ids:
         acc.violation(sigbase + ":parse-by-size", f"parse(partition(ids)) != ids (got {len(got)} of {len(ids)})", case)
     if block_size // cap == size:
         got2 = []
-        for b in blocks:
-            got2.extend(du.parse_identifiers_from_block_given_entry_count_in_one_block(b, cap))
+        try:
+            for b in blocks:
+                got2.extend(du.parse_identifiers_from_block_given_entry_count_in_one_block(b, cap))
+        except Exception as e:
+            acc.violation(sigbase + ":parse-raised:" + exc_site(e), f"parse raised {type(e).__name__}: {e}", case)
+            return
         acc.count("parse.by_count")
         if got2 != ids:
             acc.violation(sigbase + ":parse-by-count", "parse by entry count != ids", case)
@@ -249,12 +257,14 @@ def run_shard(spec, acc, ctx):
         n = max(0, min(300, n))
         extra = rng.choice([0, 0, 1, rng.randint(0, 2 * size), cap])
         check_partition(du, acc, size, cap, n, extra, rng.random() < 0.6, rng)
-        check_split(bu, acc, rng)
-        check_ints(bu, acc, rng)
-        check_xor_pad(bu, acc, rng)
-        if i % 4 == 0:
-            check_database_conversion(du, bu, acc, rng)
-            check_chunks(lu, acc, rng)
+        for name, fn in (("split", lambda: check_split(bu, acc, rng)), ("int", lambda: check_ints(bu, acc, rng)),
+                         ("xor", lambda: check_xor_pad(bu, acc, rng))) + \
+                ((("dbconv", lambda: check_database_conversion(du, bu, acc, rng)),
+                  ("chunks", lambda: check_chunks(lu, acc, rng))) if i % 4 == 0 else ()):
+            try:
+                fn()
+            except Exception as e:
+                acc.violation(f"{name}:raised:" + exc_site(e), f"{type(e).__name__}: {e}", {"checker": name})
         acc.count("cases")
         acc.add("distinct", fp("m", spec["index"], i))
         if i == 0:
